@@ -83,12 +83,20 @@ TraceRotation ==
          \cup Cl(~e.third_fails \/ e.third_is_signing_failure, "C10.signing_failure_identifiable"), {}, {})
   /\ UNCHANGED <<cid, ncases, x>>
 
+(* key files of other layouts than the usual single-key export: the valid signing key in the file signs the package *)
+TraceKeyShape ==
+  /\ IsEv("keyshape")
+  /\ LET e == Trace[l] IN
+     Rec(Cl(e.err = "", "C10.signed_package_built")
+         \cup Cl(e.err # "" \/ InSeq(e.sig, e.may_sign), "C10.signed_with_the_key_in_the_key_file"), {}, {})
+  /\ UNCHANGED <<cid, ncases, x>>
+
 TraceEof ==
   /\ IsEv("eof")
   /\ PrintT(<<"VIOLSET", ToJson(viol)>>) /\ PrintT(<<"DRIFTSET", ToJson(drift)>>) /\ PrintT(<<"MERRSET", ToJson(merr)>>)
   /\ PrintT(<<"NCASES", ncases>>) /\ TLCSet(1, l)
   /\ UNCHANGED <<cid, viol, drift, merr, ncases, x>>
-TraceNext == TraceCase \/ TraceEnd \/ TraceSigEv \/ TraceRotation \/ TraceEof
+TraceNext == TraceCase \/ TraceEnd \/ TraceSigEv \/ TraceRotation \/ TraceKeyShape \/ TraceEof
 TraceSpec == TraceInit /\ [][TraceNext]_<<vars, x>>
 HighWater == TLCSet(2, l)
 Accepted == TLCGet(1) = Len(Trace)
